@@ -242,7 +242,7 @@ func writeSearchKey(enc *imapwire.Encoder, criteria *imap.SearchCriteria) {
 	if modSeq := criteria.ModSeq; modSeq != nil {
 		encodeItem().Atom("MODSEQ")
 		if modSeq.MetadataName != "" && modSeq.MetadataType != "" {
-			enc.SP().Quoted(modSeq.MetadataName).SP().Atom(string(modSeq.MetadataType))
+			enc.SP().String(modSeq.MetadataName).SP().Atom(string(modSeq.MetadataType))
 		}
 		enc.SP()
 		if modSeq.ModSeq != 0 {
